@@ -154,6 +154,8 @@ def run_fit(cfg: Dict[str, Any], seed: int, feats, criterion_fn) -> Dict[str, An
         optimizer = BoundSGD(owned(hedger, model, cfg))
     if cfg.get("pre_eval"):
         hedger.eval()              # history: the hedger was used for pricing before this fit()
+    if cfg.get("model_eval"):      # history: only the MODEL was put in evaluation mode (a pre-trained network handed over in eval mode)
+        hedger.model.eval()
     if cfg.get("stale"):           # history: a loss was back-propagated by hand before this fit(); its gradient is still there
         for p_ in hedger.parameters():
             if not isinstance(p_, torch.nn.parameter.UninitializedParameter):
@@ -360,6 +362,9 @@ def check(ctx: Ctx) -> None:
     # gradients already populated when fit() is entered (materialised models)
     stale_cfgs = [{"k": k, "n": 2, "ntimes": 1, "validation": v, "optclass": oc, "lazy": False, "init": "default", "pre_eval": False, "extra": False, "stale": True}
                   for k in (1, 2) for v in (True, False) for oc in (True, False)]
+    # the model alone in evaluation mode when fit() is entered (the hedger's own flag still says training)
+    stale_cfgs += [{"k": k, "n": 2, "ntimes": 1, "validation": v, "optclass": oc, "lazy": False, "init": "default", "pre_eval": False, "extra": False, "stale": False, "model_eval": True}
+                   for k in (1, 2) for v in (True, False) for oc in (True, False)]
     for c_ in cfgs + extra_cfgs + hedge_cfgs:
         c_.setdefault("stale", False)
     traces = []
